@@ -296,6 +296,10 @@ func (t *Type) asID(seeNamed, escapeReserved bool) string {
 	if t.List {
 		return t.ListInner.asID(true, false) + "List"
 	}
+	if t.Basic && t.BasicType.Kind() == types.UnsafePointer {
+		// BasicType.String() is "unsafe.Pointer" which cannot be part of an identifier
+		return "unsafePointer"
+	}
 	if t.Basic {
 		if escapeReserved {
 			return "x" + t.BasicType.String()
